@@ -9,7 +9,8 @@
    Statements only; proofs are in Proofs/Upsert_proofs.v. *)
 From Coq Require Import ZArith List Bool.
 Import ListNotations.
-Require Import Grist.Model.Upsert Grist.Proofs.Upsert_proofs.
+Require Import Grist.Model.Upsert Grist.Lib.UpsertPrelude Grist.Proofs.Upsert_proofs GristGen.Upsert_gen
+               Grist.Proofs.Upsert_bridge.
 Open Scope Z_scope.
 
 (* The property at full strength: for all tables, arguments, options and conversion functions the call behaves
@@ -100,3 +101,58 @@ Example C28_arg_errors_nonvacuous :
   arg_error [] [(3, [VText [97]])] ex_default = Some EEmptyRequire /\
   arg_error [] [] {| o_on_many := OnBad; o_update := true; o_add := true; o_allow_empty := true |} = Some EOnMany.
 Proof. repeat split; vm_compute; reflexivity. Qed.
+
+(* ===================== the code itself =====================
+   `gen_upsert` / `gen_upsert_single` (GristGen.Upsert_gen) are translated from useractions.py on EVERY run by
+   harness/up2v.py: the argument checks in their order, the per-row loop with the lookup, the on_many handling,
+   the add/update accumulators (column dicts), require_add_keys, new_record_indexes, the recordIds placeholders
+   and their filling, the AddOrUpdateRecord wrapper.  The table lookup, the column/metadata queries and the two
+   record actions are the fields of the opaque `oenv`. *)
+
+(* Pointwise bridge, for EVERY opaque environment: the regenerated code is (convertible with) the structured
+   mirror cm_upsert of Proofs/Upsert_bridge.v -- any semantic edit of the source breaks these two proofs. *)
+Theorem C28_code_bridge : forall oe t require col_values opts,
+  gen_upsert oe t require col_values opts = cm_upsert oe t require col_values opts.
+Proof. exact gen_upsert_is_mirror. Qed.
+
+Theorem C28_code_bridge_single : forall oe t require col_values opts,
+  gen_upsert_single oe t require col_values opts = cm_upsert_single oe t require col_values opts.
+Proof. exact gen_upsert_single_is_mirror. Qed.
+
+(* Over the environment given by the models of lookup / BulkAddRecord / BulkUpdateRecord (oenv_of), and for
+   arguments that are dicts (no column named twice), the mirror is the row-major hand model ... *)
+Theorem C28_code_is_model : forall e t require col_values o,
+  wf_dict require -> wf_dict col_values ->
+  gen_upsert (oenv_of e) t require col_values o = upsert e t require col_values o.
+Proof. intros. rewrite gen_upsert_is_mirror. apply mirror_is_model; assumption. Qed.
+
+(* ... hence the property holds of the generated functions. *)
+Theorem C28_code_refines_reference : forall e t require col_values o,
+  wf_dict require -> wf_dict col_values ->
+  gen_upsert (oenv_of e) t require col_values o = ref_upsert e t require col_values o.
+Proof. exact gen_refines_reference. Qed.
+
+Theorem C28_code_arg_errors_reject : forall e t require col_values o x,
+  wf_dict require -> wf_dict col_values ->
+  arg_error require col_values o = Some x ->
+  gen_upsert (oenv_of e) t require col_values o = Err x /\
+  table_after t (gen_upsert (oenv_of e) t require col_values o) = t.
+Proof. exact gen_arg_errors_reject. Qed.
+
+Theorem C28_code_single_refines_reference : forall e t require col_values o,
+  wf_dict require -> wf_dict col_values ->
+  gen_upsert_single (oenv_of e) t require col_values o = ref_single e t require col_values o.
+Proof. exact gen_single_refines_reference. Qed.
+
+(* the hypotheses are satisfiable and the generated code computes (same run as C28_nonvacuous) *)
+Example C28_code_nonvacuous :
+  let require := [(1, [VText [97]; VText [122]; VText [98]])] in
+  let col_values := [(3, [VText [120]; VText [121]; VText [119]])] in
+  wf_dict require /\ wf_dict col_values /\
+  gen_upsert (oenv_of ex_env) ex_table2 require col_values ex_all
+  = Ok ([(1, [(1, VText [97]); (3, VText [120])]); (2, [(1, VText [97]); (3, VText [120])]);
+         (4, [(1, VText [98]); (3, VText [119])]); (5, [(1, VText [122]); (3, VText [121])])],
+        {| r_record_ids := [[1; 2]; [5]; [4]]; r_add_ids := [5]; r_update_ids := [[1; 2]; [4]] |}).
+Proof.
+  cbv zeta. repeat split; try (vm_compute; reflexivity); unfold wf_dict; simpl; repeat constructor; intros [].
+Qed.
